@@ -3,3 +3,9 @@ import SoxrModel.Properties.C12Engine
 #print axioms Soxr.Properties.C12Engine.homogeneity_runs
 #print axioms Soxr.Properties.C12Engine.sum_ladd
 #print axioms Soxr.Properties.C12Engine.streaming_state
+#print axioms Soxr.Properties.C12Engine.run_state
+#print axioms Soxr.Properties.C12Engine.shift_covariance_runs
+#print axioms Soxr.Properties.C12Engine.shift_covariance_runs_eq
+#print axioms Soxr.Cr.planShift_sound
+#print axioms Soxr.Cr.chain_sound
+#print axioms Soxr.Cr.UnitSem.G_shift
